@@ -29,7 +29,7 @@ RULE = ('structural + text: enumerated depth<=2 (sampled in the quick tier), sam
         'operator; distinct = distinct (provider, query text)')
 
 QUICK = dict(n_random=160, n_enum=200, n_depth3=40, text_random=120, text_enum=160, search_random=150, search_enum=150, search_rows=6)
-THOROUGH = dict(n_random=2000, n_enum=1330, n_depth3=400, text_random=1500, text_enum=1330, search_random=1500, search_enum=1330, search_rows=14)
+THOROUGH = dict(n_random=1500, n_enum=1330, n_depth3=300, text_random=1200, text_enum=1330, search_random=1000, search_enum=1330, search_rows=10)
 
 PREFIX = {'sqlite': 'SELECT "p"."id", ', 'postgres': 'SELECT "p"."id", ', 'mysql': 'SELECT `p`.`id`, ', 'oracle': 'SELECT "p"."ID", '}
 RENDER_HEADER = 'From Coq Require Import String.\nRequire Import PonyV.Model.C02Render.\n'
